@@ -10,8 +10,9 @@ Local Open Scope N_scope.
 Definition rd := (nat * nat * N * N)%type.
 (* (mode, first, second, status 0 ok/1 out of range/2 other, got_len, ref_oor, ref_off, ref_len, reads) *)
 Definition res := (nat * N * N * nat * N * bool * N * N * list rd)%type.
-(* (kind 0 whole/1 split/2 ec, ver, link, len, sizes, k, parts missing, results) *)
-Definition gcase := (nat * nat * bool * N * list N * N * nat * list res)%type.
+(* (kind 0 whole/1 split/2 ec, ver, link, len, sizes, k, m, EC parts removed, EC parts whose range
+   streams break after n bytes, results) *)
+Definition gcase := (nat * nat * bool * N * list N * N * nat * list nat * list (nat * N) * list res)%type.
 
 Definition mode_of (m : nat) : rmode :=
   match m with 0%nat => MNone | 1%nat => MOffLen | 2%nat => MBounds | 3%nat => MFrom | _ => MSuffix end.
@@ -48,7 +49,7 @@ Definition trace_rev (nchildren : nat) (reqs : list (option (N * N))) : list rd 
 Definition trace_full (n : nat) : list rd := map (fun i => (i, 0%nat, 0, 0)) (seq 0 n).
 
 Definition expected_reads (c : gcase) (m : rmode) (o l : N) : option (list rd) :=
-  let '(kind, ver, link, len, sizes, k, missing, _) := c in
+  let '(kind, ver, link, len, sizes, k, _, missing, flaky, _) := c in
   let n := length sizes in
   match kind with
   | 1%nat =>
@@ -60,7 +61,7 @@ Definition expected_reads (c : gcase) (m : rmode) (o l : N) : option (list rd) :
       else Some (trace_rev n (bwd len o (o + l) (rev sizes)))
     end
   | 2%nat =>
-    if (0 <? missing)%nat || (len =? 0) then None
+    if negb (length missing =? 0)%nat || negb (length flaky =? 0)%nat || (len =? 0) then None
     else match m with
          | MNone => Some (trace_full n)
          | _ => Some ((0%nat, 0%nat, 0, 0) ::
@@ -70,17 +71,78 @@ Definition expected_reads (c : gcase) (m : rmode) (o l : N) : option (list rd) :
   | _ => None
   end.
 
+(* ---- ranged read of an EC object with unavailable parts (copyECObjectRangeByRule /
+   copyECObjectRangeByParts with the recovery branch) ----
+   The header comes from the full stream of the first stored part.  The data parts of the range
+   are then read in order (part 0 from that stream when it is stored) until the first one that
+   is removed (no read reaches the storage) or whose range stream breaks before the requested
+   length (the read is issued).  Then all other parts are read in full (offset 0, length 0) for
+   the recovery: which of them and how many is a race in the code (errgroup, interrupted after k
+   successes), so only "distinct stored parts other than the failed one, at least k of them
+   complete" is required. *)
+Definition memn (i : nat) (l : list nat) : bool := existsb (Nat.eqb i) l.
+Definition flaky_n (i : nat) (fl : list (nat * N)) : option N :=
+  match find (fun x => (fst x =? i)%nat) fl with Some (_, n) => Some n | None => None end.
+
+Fixpoint ec_range_reads (missing : list nat) (flaky : list (nat * N)) (t : list (nat * N * N)) : list rd * option nat :=
+  match t with
+  | [] => ([], None)
+  | (i, po, pl) :: r =>
+    if memn i missing then ([], Some i)
+    else if (i =? 0)%nat then ec_range_reads missing flaky r
+    else
+      let broken := match flaky_n i flaky with Some n => n <? pl | None => false end in
+      if broken then ([(i, 1%nat, po, pl)], Some i)
+      else let '(rs, f) := ec_range_reads missing flaky r in ((i, 1%nat, po, pl) :: rs, f)
+  end.
+
+Definition is_hdr (x : rd) : bool := let '(_, m, _, _) := x in (m =? 0)%nat.
+Definition is_rec (x : rd) : bool := let '(_, m, _, s) := x in (m =? 1)%nat && (s =? 0).
+Definition is_rng (x : rd) : bool := let '(_, m, _, s) := x in (m =? 1)%nat && negb (s =? 0).
+
+Fixpoint strictly_inc (l : list nat) : bool :=
+  match l with
+  | a :: ((b :: _) as t) => (a <? b)%nat && strictly_inc t
+  | _ => true
+  end.
+
+Definition ec_loss_trace_ok (sizes : list N) (m : nat) (missing : list nat) (flaky : list (nat * N)) (o l : N) (reads : list rd) : bool :=
+  let n := (length sizes + m)%nat in
+  let per := hd 0 sizes in
+  let '(want_rng, f) := ec_range_reads missing flaky (indexed 0 (fwd o l sizes)) in
+  forallb (fun x => is_hdr x || is_rec x || is_rng x) reads &&
+  match find (fun i => negb (memn i missing)) (seq 0 n) with
+  | Some p0 => rds_eqb (filter is_hdr reads) [(p0, 0%nat, 0, 0)]
+  | None => false
+  end &&
+  rds_eqb (filter is_rng reads) want_rng &&
+  let idxs := map (fun x : rd => fst (fst (fst x))) (filter is_rec reads) in
+  match f with
+  | None => (length idxs =? 0)%nat
+  | Some fi =>
+    strictly_inc idxs &&
+    forallb (fun i => (i <? n)%nat && negb (i =? fi)%nat && negb (memn i missing)) idxs &&
+    (length sizes <=? length (filter (fun i => match flaky_n i flaky with Some fn => (per <=? fn)%N | None => true end) idxs))%nat
+  end.
+
+Definition trace_ok (c : gcase) (md : rmode) (o l : N) (reads : list rd) : bool :=
+  let '(kind, ver, link, len, sizes, k, m, missing, flaky, _) := c in
+  let lossy := negb (length missing =? 0)%nat || negb (length flaky =? 0)%nat in
+  let ranged := match md with MNone => false | _ => true end in
+  if (kind =? 2)%nat && lossy && ranged && negb (len =? 0) then ec_loss_trace_ok sizes m missing flaky o l reads
+  else match expected_reads c md o l with
+       | None => true
+       | Some want => rds_eqb (filter (fun x => (fst (fst (fst x)) <? length sizes)%nat) reads) want
+       end.
+
 Definition res_ok (c : gcase) (r : res) : bool :=
-  let '(kind, ver, link, len, sizes, k, missing, _) := c in
+  let '(kind, ver, link, len, sizes, k, _, _, _, _) := c in
   let '(m, f, s, status, got, ref_oor, ref_off, ref_len, reads) := r in
   match resolve (mode_of m) f s len with
   | None => (status =? 1)%nat && ref_oor
   | Some (o, l) =>
     (status =? 0)%nat && (got =? l) && negb ref_oor && (ref_off =? o) && (ref_len =? l) &&
-    match expected_reads c (mode_of m) o l with
-    | None => true
-    | Some want => rds_eqb (filter (fun x => (fst (fst (fst x)) <? length sizes)%nat) reads) want
-    end
+    trace_ok c (mode_of m) o l reads
   end.
 
 Fixpoint bad_res (j : nat) (c : gcase) (rs : list res) : list nat :=
@@ -94,7 +156,7 @@ Fixpoint mism_from (ci : nat) (cs : list gcase) : list nat :=
   match cs with
   | [] => []
   | c :: t =>
-    let '(_, _, _, _, _, _, _, rs) := c in
+    let '(_, _, _, _, _, _, _, _, _, rs) := c in
     map (fun j => (1000 * ci + j)%nat) (bad_res 0 c rs) ++ mism_from (S ci) t
   end.
 Definition model_mismatches := mism_from 0.
